@@ -3,6 +3,7 @@ import PeptVerif.Model.Annotation
 import PeptVerif.Model.CompCalc
 import PeptVerif.Spec.Mass
 import PeptVerif.Model.MassEnv
+import PeptVerif.Model.Formula
 /-! Line-protocol operations shared by the drivers of C02, C03, C05 (mass tables, mass / composition calculators,
 specification). Mathlib-free. -/
 open Pept Pept.Chem Pept.Mass Proto
@@ -208,6 +209,42 @@ def step (line : String) : String :=
     match Wire.unesc s, parseBool? mono with
     | some s, some m => showRes (chargeAdductsMassStr m (codes s))
     | _, _ => "bad-op"
+  | ["adduct_mass1", s, mono, precision] =>
+    match Wire.unesc s, parseBool? mono, parseOptInt? precision with
+    | some s, some m, some p => showRes (adductMassP m (codes s) p)
+    | _, _, _ => "bad-op"
+  | ["adducts_mass_v", v, mono, precision] =>
+    match Wire.parseVal? v, parseBool? mono, parseOptInt? precision with
+    | some v, some m, some p => showRes (chargeAdductsMassP m v p)
+    | _, _, _ => "bad-op"
+  | ["adduct_comp_v", v] =>
+    match Wire.parseVal? v with
+    | some v => match CompCalc.chargeAdductsComp v with
+      | .ok c => "ok " ++ showComp c
+      | .error e => e.show
+    | none => "bad-op"
+  | ["chem_mass_str", f, mono, precision] =>
+    match Wire.unesc f, parseBool? mono, parseOptInt? precision with
+    | some f, some m, some p =>
+      -- the formula text is read by the formula model of the C15 work package; the mass is this model's chem_mass
+      match Formula.parseChem (codes f) [] with
+      | .ok c => showRes (chemMass m (c.map fun kv => (keyOfCodes kv.1, kv.2.val)) p)
+      | .error _ => "ERR:InvalidChemFormulaError"
+    | _, _, _ => "bad-op"
+  | "sequence_comp" :: ann :: res :: static :: opts =>
+    match Wire.parseAnnotation? ann, mkEnv? res static, parseOpts? opts with
+    | some a, some env, some o =>
+      match CompCalc.sequenceComp env a o.ion o.isotope o.useIsotopeOnMods with
+      | .ok c => "ok " ++ showComp c
+      | .error e => e.show
+    | _, _, _ => "bad-op"
+  | ["condense", ann, res, static] =>
+    match Wire.parseAnnotation? ann, mkEnv? res static with
+    | some a, some env =>
+      match CompCalc.condenseStatic env a with
+      | .ok b => "ok " ++ Wire.showAnnotation b
+      | .error e => e.show
+    | _, _ => "bad-op"
   | ["adduct_comp", s] =>
     match Wire.unesc s with
     | some s => match CompCalc.chargeAdductsCompStr (codes s) with
@@ -231,6 +268,7 @@ def step (line : String) : String :=
     | some c, some (some iso) => match CompCalc.applyIsotopeMods c iso with
       | .ok c => "ok " ++ showComp c
       | .error e => e.show
+    | some c, some none => "ok " ++ showComp c
     | _, _ => "bad-op"
   | ["round", x, p] =>
     match parseDec? x, parseInt? p with
